@@ -20,6 +20,7 @@ DS = ["absent", "file", "dir-empty", "dir-full", "link-file", "link-dir", "dangl
 OP = ["none", "no-clobber", "backup"]
 OUT = ["created", "created-backed-up", "written-through", "merged", "refused", "blocks"]
 OPT_ARGS = {"none": [], "no-clobber": ["-n"], "backup": ["--backup", "numbered"]}
+SRC_LINK_TEXT = "../by/../by/target.txt"
 
 
 def _mk_special(rng, path):
@@ -50,7 +51,8 @@ def build(rng, d, sk, ds):
         os.makedirs(sp)
         open(os.path.join(sp, "child"), "wb").write(b"child")
     elif sk == "link":
-        os.symlink("../by/target.txt", sp)        # a live link (a dangling operand is an invalid invocation: C16)
+        os.symlink(SRC_LINK_TEXT, sp)             # a live link (a dangling operand is an invalid invocation: C16); its TEXT differs
+                                                  # from that of every link found at the destination
     else:
         _mk_special(rng, sp)
     tp = os.path.join(d, "t", "x")
@@ -118,6 +120,8 @@ def classify(d, sk, ds, before, after, exitc, timed_out):
             return "merged" if inside else "?directory not merged"
         return "created" if inside else "?directory created without its content"
     if _k(now) == want:
+        if sk == "link" and os.fsdecode(now.get("link") or b"") != SRC_LINK_TEXT:
+            return "?exit 0 but the link at t/x reads %r, the source's reads %r (the entry found there was left in place)" % (now.get("link"), SRC_LINK_TEXT)
         return "created"
     return "?exit 0 but t/x is %r" % _k(now)
 
